@@ -836,7 +836,10 @@ func c17R9(p *engine.Prog, r *engine.Report) {
 	if f == nil {
 		return
 	}
-	isDbID := func(t types.Type) bool { n := engine.NamedOf(t); return n != nil && n.Obj().Name() == "DbLotteryIdentity" }
+	isDbID := func(t types.Type) bool {
+		n := engine.NamedOf(t)
+		return n != nil && n.Obj().Name() == "DbLotteryIdentity"
+	}
 	n := 0
 	for _, cl := range f.AnonFuncs {
 		// the scan callback: it appends to a captured []DbLotteryIdentity
